@@ -356,13 +356,18 @@ inline model::MRep repetition(Ctx& c, bool for_ref) {
         case 2: {
             rep.type = model::REP_EXPLICIT;
             int n = (int)r.range(1, 6);
-            for (int i = 0; i < n; i++) rep.offs.push_back(Pt{ongrid(c, -300, 300), ongrid(c, -300, 300)});
+            // OASIS stores an explicit repetition as rounded values of its own (no sum with the element's
+            // position is ever rounded), so off-grid offsets are well defined there: each one rounded
+            bool off = c.cfg.mode == canon::OAS && c.offgrid && r.chance(0.5);
+            for (int i = 0; i < n; i++)
+                rep.offs.push_back(Pt{ongrid(c, -300, 300) + (off ? frac(c) : 0), ongrid(c, -300, 300) + (off ? frac(c) : 0)});
         } break;
         default: {
             rep.type = r.chance(0.5) ? model::REP_EX : model::REP_EY;
             int n = (int)r.range(1, 6);
             bool neg = c.cfg.neg_explicit && r.chance(0.3);
-            for (int i = 0; i < n; i++) rep.coords.push_back(ongrid(c, neg ? -300 : 1, 300));
+            bool off = c.cfg.mode == canon::OAS && c.offgrid && r.chance(0.5);
+            for (int i = 0; i < n; i++) rep.coords.push_back(ongrid(c, neg ? -300 : 1, 300) + (off ? frac(c) : 0));
         }
     }
     return rep;
